@@ -121,6 +121,48 @@ def correspond(ctx):
                     except Exception as e:  # noqa: BLE001
                         ans = "err " + errname(e)
                     s_lp.add_raw(f"lp pbkdf {v} {R} {op} {cps(c)}", ans, f"pbkdf{v}:{op}")
+    # bcrypt-sha256: the hasher's decisions over the PHC inspector (bcrypt itself is a parameter: the harness computes what checkpw answers
+    # from an independent reading of the record and hands it to the model)
+    import base64
+    import hashlib
+    import hmac as std_hmac
+    import re
+
+    import bcrypt as wheel
+    from libpass.hashers.bcrypt import BcryptSHA256Hasher
+
+    for _ in range(n // 3):
+        R = rng.choice([4, 5])
+        lp = BcryptSHA256Hasher(rounds=R)
+        secret = rand_secret(rng)[:60].replace(b"\x00", b"\x01")
+        hs = lp.hash(secret)
+        variants = [hs, hs.replace("v=2,", "v=0,"), hs.replace("v=2,", "v=1,"), hs.replace("v=2,", "v=3,"), hs.replace("v=2,", "v=02,"), hs.replace("v=2,", "v=22,"), hs.replace("t=2b", "t=2a"),
+                    hs.replace(f"r={R}$", f"r={R + 1}$"), hs.replace(f"r={R}$", f"r=0{R}$"), hs[:-1] + ("A" if hs[-1] != "A" else "B"), hs.replace("v=2,t=2b", "t=2b,v=2"), hs + "$", hs[:-2],
+                    hs.replace("$bcrypt-sha256$", "$bcrypt-sha512$"), "", "$2b$04$" + "a" * 53, hs.replace("v=2,", "")]
+        for c in variants:
+            for op, fn in (("identify", lp.identify), ("needs", lp.needs_update)):
+                for RR in (R, R + 1):
+                    try:
+                        ans = b(getattr(BcryptSHA256Hasher(rounds=RR), "identify" if op == "identify" else "needs_update")(c))
+                    except Exception as e:  # noqa: BLE001
+                        ans = "err " + errname(e)
+                    s_lp.add_raw(f"lp bcsha {RR} {op} {cps(c)}", ans, f"bcsha:{op}")
+            for sec in (secret, secret + b"x"):
+                # independent reading of the record: "$bcrypt-sha256$<k=v,...>$<salt>$<digest>", parameters in any order (a dict on the real side too)
+                ck = 0
+                parts = c.split("$")
+                if len(parts) == 5 and parts[0] == "" and parts[1] == "bcrypt-sha256":
+                    try:
+                        kv = dict(x.split("=") for x in parts[2].split(","))
+                        pre = base64.b64encode(std_hmac.new(parts[3].encode(), sec, hashlib.sha256).digest())
+                        ck = int(wheel.checkpw(pre, f"${kv['t']}${int(kv['r']):02d}${parts[3]}{parts[4]}".encode()))
+                    except Exception:  # noqa: BLE001
+                        ck = 0
+                try:
+                    ans = b(lp.verify(c, sec))
+                except Exception as e:  # noqa: BLE001
+                    ans = "err " + errname(e)
+                s_lp.add_raw(f"lp bcsha {R} verify {cps(c)} {ck}", ans, "bcsha:verify")
     cross_matrix(ctx, o_x)
     return merge(s_lp, s_cl, o_x)
 
